@@ -81,7 +81,7 @@ func caseLimit(c CaseIn) time.Duration {
 	if k < 1 {
 		k = 1
 	}
-	return time.Duration(12+8*k) * time.Second
+	return time.Duration(8+6*k) * time.Second
 }
 
 // runOne: the case on worker *w in a directory of its own.  If the worker ends or blocks (the code
@@ -347,13 +347,18 @@ func run(ctx *Ctx) *Result {
 		bl = append(bl, CaseIn{Scen: s, Tool: "doapprove", FaultPos: -1})
 	}
 	blOut := runBaselines(res, bl, nw)
+	judgeReference(res, drv, bl, blOut, refSeen)
 
 	// 2. the matrix: every position x every kind
 	var cases []CaseIn
 	for i, s := range scens {
 		if blOut[i].Exit != 0 || blOut[i].Panic != "" {
 			if e := envClass(bl[i], blOut[i]); e != "" {
-				res.Count("scenario_skipped_no_reference_run:" + e) // the length of the dialogue is not known
+				// the length of the dialogue is not known: no fault matrix, only the fault-free runs
+				res.Count("scenario_without_fault_matrix:" + e)
+				for _, t := range tools {
+					cases = append(cases, CaseIn{Scen: s, Tool: t, FaultPos: -1})
+				}
 				continue
 			}
 		}
@@ -390,10 +395,18 @@ func run(ctx *Ctx) *Result {
 // 1-second timeouts of the scenarios can strike: such runs are repeated
 func runBaselines(res *Result, cases []CaseIn, nw int) []CaseOut {
 	outs := runAll(cases, nw)
-	for attempt := 0; attempt < 3; attempt++ {
+	hung := map[int]int{}
+	for attempt := 0; attempt < 2; attempt++ {
 		var again []int
 		for i, o := range outs {
 			if cases[i].FaultPos == -1 && (o.Exit != 0 || o.Panic != "") {
+				if strings.HasPrefix(o.Panic, "worker hung") {
+					hung[i]++
+				}
+				changed := o.Hash0 != "" && o.Hash1 != "" && o.Hash0 != o.Hash1
+				if hung[i] >= 2 || changed {
+					continue // not the environment's doing: the run is judged as it is
+				}
 				again = append(again, i)
 			}
 		}
@@ -407,7 +420,7 @@ func runBaselines(res *Result, cases []CaseIn, nw int) []CaseOut {
 			c.TScale = rerunScale
 			cs = append(cs, c)
 		}
-		os2 := runAll(cs, 1) // serially, with long time-outs
+		os2 := runAll(cs, 2) // two at a time, with long time-outs
 		for k, i := range again {
 			outs[i] = os2[k]
 		}
@@ -499,6 +512,66 @@ type finding struct {
 	hard bool
 }
 
+// deviceFindings: what the device received and what became of its state, judged without any model of
+// the code (oracle 1: devstate.go; oracle 2: the vocabulary and the configuration-mode automaton of
+// NA/Spec/C11Sess.lean through nadrv-c11 VOCAB).  Used for every run, the fault-free reference runs
+// included.
+func deviceFindings(drv *Nadrv, c CaseIn, o CaseOut) ([]finding, map[string]string) {
+	b := c.Scen.Backend
+	var fs []finding
+	for k, kd := range o.Kinds {
+		if kd == "change" || kd == "save" {
+			fs = append(fs, finding{map[string]any{"pred": "compare_sent_" + kd, "backend": b},
+				fmt.Sprintf("compare sent %q, which the device executes as a %s (line %d of the dialogue)", o.Lines[k], kd, k+1), true})
+			break
+		}
+	}
+	if o.Hash0 != "" && o.Hash1 != "" && o.Hash0 != o.Hash1 {
+		fs = append(fs, finding{map[string]any{"pred": "device_state_changed", "backend": b},
+			fmt.Sprintf("state hash of the device before %s, after %s", o.Hash0, o.Hash1), true})
+	}
+	if o.Scp {
+		fs = append(fs, finding{map[string]any{"pred": "compare_copied_startup_file", "backend": b}, "compare executed scp", true})
+	}
+	if o.Change {
+		fs = append(fs, finding{map[string]any{"pred": "compare_wrote_change_log", "backend": b},
+			"compare created the .change log of an approve run", true})
+	}
+	var implSends []string
+	for _, l := range o.Lines {
+		implSends = append(implSends, canonLine(b, l))
+	}
+	v := drv.Ask("VOCAB\t" + b + "\t" + strings.Join(implSends, "\x1f"))
+	vm := parseModel(v)
+	if vm["ok"] != "1" {
+		fs = append(fs, finding{map[string]any{"pred": "line_outside_compare_vocabulary", "backend": b},
+			"the real compare run sent a line that NA.Spec.C11.allowedLines does not contain: " + v, true})
+	}
+	if vm["blk"] == "bad" || (vm["blk"] != "out" && o.Exit == 0) {
+		fs = append(fs, finding{map[string]any{"pred": "config_mode_not_only_terminal_width", "backend": b},
+			"in configuration mode the real compare run sent something else than the terminal width, or it ended inside configuration mode: " + v,
+			vm["blk"] == "bad"})
+	}
+	return fs, vm
+}
+
+// judgeReference: the fault-free reference runs are runs of compare like any other
+func judgeReference(res *Result, drv *Nadrv, cases []CaseIn, outs []CaseOut, seen map[string]bool) {
+	for i, c := range cases {
+		fs, _ := deviceFindings(drv, c, outs[i])
+		for _, f := range fs {
+			key := fmt.Sprintf("%s|%s|%d|%s|%v", c.Scen.ID, c.Tool, c.FaultPos, c.FaultKind, f.sig["pred"])
+			if f.hard && !seen[key] {
+				seen[key] = true
+				res.Count("hard_finding_in_reference_run")
+				res.Fail(f.sig, f.what, c)
+			}
+		}
+	}
+}
+
+var refSeen = map[string]bool{}
+
 type judgement struct {
 	impl, model, ans string
 	roBroken         bool
@@ -575,6 +648,8 @@ func evalCases(ctx *Ctx, res *Result, drv *Nadrv, cases []CaseIn, nw int, verbos
 	for i, id := range pk2 {
 		pl[id].e, pl[id].eIpt = planPackets(pc2[i].Scen.Backend, po2[i].CmpLog)
 	}
+	judgeReference(res, drv, pc, po, refSeen)
+	judgeReference(res, drv, pc2, po2, refSeen)
 	// a scenario whose fault-free reference run could not be had (no pty, time-outs even serially
 	// with long time-outs) has no script to hand to the model: all its cases are inconclusive.
 	// (A reference run that fails for a reason the environment does not explain is kept: then the
@@ -641,40 +716,13 @@ func evalCases(ctx *Ctx, res *Result, drv *Nadrv, cases []CaseIn, nw int, verbos
 		}
 		j.roBroken = m["ro"] != "1" // the theorem compare_session_readonly says this cannot happen
 
-		// ---- oracle 1: the device's own view (devstate.go)
+		// ---- oracle 1 (the device's own view, devstate.go) and oracle 2 (the Lean specification's
+		// vocabulary on the real transcript): facts about what the device received
 		if o.Panic != "" {
 			j.fails = append(j.fails, finding{map[string]any{"pred": "go_panic", "backend": b}, "runtime panic: " + o.Panic, false})
 		}
-		for k, kd := range o.Kinds {
-			if kd == "change" || kd == "save" {
-				j.fails = append(j.fails, finding{map[string]any{"pred": "compare_sent_" + kd, "backend": b},
-					fmt.Sprintf("compare sent %q, which the device executes as a %s (line %d of the dialogue)", o.Lines[k], kd, k+1), true})
-				break
-			}
-		}
-		if o.Hash0 != "" && o.Hash1 != "" && o.Hash0 != o.Hash1 {
-			j.fails = append(j.fails, finding{map[string]any{"pred": "device_state_changed", "backend": b},
-				fmt.Sprintf("state hash of the device before %s, after %s", o.Hash0, o.Hash1), true})
-		}
-		if o.Scp {
-			j.fails = append(j.fails, finding{map[string]any{"pred": "compare_copied_startup_file", "backend": b}, "compare executed scp", true})
-		}
-		if o.Change {
-			j.fails = append(j.fails, finding{map[string]any{"pred": "compare_wrote_change_log", "backend": b},
-				"compare created the .change log of an approve run", true})
-		}
-		// ---- oracle 2: the Lean specification's vocabulary on the real transcript
-		v := drv.Ask("VOCAB\t" + b + "\t" + strings.Join(implSends, "\x1f"))
-		vm := parseModel(v)
-		if vm["ok"] != "1" {
-			j.fails = append(j.fails, finding{map[string]any{"pred": "line_outside_compare_vocabulary", "backend": b},
-				"the real compare run sent a line that NA.Spec.C11.allowedLines does not contain: " + v, true})
-		}
-		if vm["blk"] == "bad" || (vm["blk"] != "out" && o.Exit == 0) {
-			j.fails = append(j.fails, finding{map[string]any{"pred": "config_mode_not_only_terminal_width", "backend": b},
-				"in configuration mode the real compare run sent something else than the terminal width, or it ended inside configuration mode: " + v,
-				vm["blk"] == "bad"})
-		}
+		hf, vm := deviceFindings(drv, c, o)
+		j.fails = append(j.fails, hf...)
 		j.blk = vm["blk"]
 		if !(c.FaultKind == "close" && !isHTTP(b)) && m["blk"] != vm["blk"] {
 			j.model += " blk=" + m["blk"]
